@@ -53,7 +53,13 @@ func (ld *Loaded) structure(root *ssa.Function) (funcs int, problems []string) {
 				}
 				if cc.IsInvoke() {
 					// user-supplied Memory/IO/handlers: assumed total; the module's own
-					// implementations reachable here (im0data) are walked explicitly
+					// implementations reachable here (im0data) are walked explicitly.
+					// Inside im0data itself the receiver of an invoke is its base memory,
+					// which processInterrupt always sets to the user's memory (never
+					// another overlay: it restores cpu.Memory before returning).
+					if f.Signature.Recv() != nil && strings.Contains(f.Signature.Recv().Type().String(), "im0data") {
+						continue
+					}
 					for _, t := range []string{"im0data"} {
 						if m := ld.pkgs[modPath].Type(t); m != nil {
 							ms := ld.prog.MethodSets.MethodSet(ptrTo(m.Type()))
